@@ -1342,8 +1342,8 @@ fn is_shell_separator(token: &str) -> bool {
     matches!(token, "|" | "||" | "&&" | ";" | "&")
 }
 
-fn agentpack_command_id(argv: &[String]) -> Option<String> {
-    let mut idx = 0;
+/// Index of the first word at or after `idx` that is neither a global flag nor the value of one.
+fn skip_global_flags(argv: &[String], mut idx: usize) -> usize {
     while idx < argv.len() {
         let t = argv[idx].as_str();
         if t == "--" {
@@ -1363,9 +1363,19 @@ fn agentpack_command_id(argv: &[String]) -> Option<String> {
         }
         idx += 1;
     }
+    idx
+}
+
+fn agentpack_command_id(argv: &[String]) -> Option<String> {
+    let idx = skip_global_flags(argv, 0);
 
     let cmd = argv.get(idx)?.as_str();
     let rest: Vec<&str> = argv.iter().skip(idx + 1).map(|s| s.as_str()).collect();
+    // Global flags may also sit between a command group and its subcommand
+    // (`agentpack overlay --json edit ...`).
+    let sub = argv
+        .get(skip_global_flags(argv, idx + 1))
+        .map(|s| s.as_str());
 
     let command_id = match cmd {
         "deploy" => {
@@ -1382,22 +1392,16 @@ fn agentpack_command_id(argv: &[String]) -> Option<String> {
                 "doctor".to_string()
             }
         }
-        "overlay" => match rest.first().copied() {
-            Some("edit") => "overlay edit".to_string(),
-            Some("rebase") => "overlay rebase".to_string(),
-            Some(other) => format!("overlay {other}"),
-            None => "overlay".to_string(),
-        },
-        "remote" => match rest.first().copied() {
-            Some("set") => "remote set".to_string(),
-            Some(other) => format!("remote {other}"),
-            None => "remote".to_string(),
-        },
-        "evolve" => match rest.first().copied() {
-            Some("propose") => "evolve propose".to_string(),
-            Some("restore") => "evolve restore".to_string(),
-            Some(other) => format!("evolve {other}"),
-            None => "evolve".to_string(),
+        "import" => {
+            if rest.contains(&"--apply") {
+                "import --apply".to_string()
+            } else {
+                "import".to_string()
+            }
+        }
+        "overlay" | "remote" | "evolve" | "policy" => match sub {
+            Some(sub) => format!("{cmd} {sub}"),
+            None => cmd.to_string(),
         },
         other => other.to_string(),
     };
